@@ -25,6 +25,10 @@ CHECKS = {
    technique="TLA+ spec Eval.tla (documented evaluation RefEval vs. cached evaluator ImplEval with the code's cache key) checked by TLC on all small declaration trees x records; TLC-emitted expectations replayed on the real Transform in three renderings (inline / templates / xpath_dynamic) x XML/JSON; random larger cases validated by TLC (Trace_Eval.tla)",
    text="TLC evaluates for every declaration tree with <=3 (thorough: 4, sampled) nodes over 34 node variants and every record with <=3 nodes, plus directed families for cache-key collisions and array order, both the documented denotational evaluation and the evaluator with its result cache, and requires them equal (cache hits and visiting order invisible). Every case's expected JSON is replayed on the real NewSchema/NewTransform/Read with the tree rendered inline, with every subtree as a template and with xpath_dynamic, for XML and JSON input. Random trees up to 10 nodes are checked by TLC evaluating the reference on the logged case.",
    note="Trusted: TLC, the schema/record renderers. Payload alphabet is tiny; types are none/int; custom_func is concat; kept-empty values compared modulo rendering. CSV/fixed-length/EDI records reach ParseNode as the same node trees (C05/C06 bind those readers)."),
+ "C09": dict(cat="exploration", design="5/C09",
+   technique="multi-run trace validation: real runs of the same bytes under enumerated/sampled delivery schedules are checked by TLC against Trace_Runs.tla (result sequence is a function of content); the reader's own buffer-aliasing discipline is model-checked in Chunks.tla for every refill pattern",
+   text="For every corpus input (all 7 formats, 3 encodings, BOM, generated multi-row inputs that straddle bufio's window) the golden whole-buffer run is compared by TLC with 1-byte delivery, data-with-EOF, every single split point (exhaustive up to 700/4200 bytes) and random chunkings with empty reads; TLC also explores every refill pattern of the fixedlength2 alias-then-copy model. Exploration: schedules beyond single split points are sampled.",
+   note="Trusted: TLC, the chunking reader of the harness; stdlib/go-corelib layers are axiomatised (not modelled). JSON reader line numbers in messages are masked (documented as rough)."),
 }
 
 def main():
